@@ -78,14 +78,21 @@ FragsFrom(f, i) ==
 \* the implementation and its memo of compared fragment pairs, both ways round
 \*   { ... on Q { o { <f[NF+1]> } }  ... on M { o { <f[NF+2]> } }  k: o { <o> } }
 Inl(id, on, sel) == [k |-> "inline", id |-> id, on |-> on, dirs |-> <<>>, sel |-> sel]
-NS == IF Shape = "nested" THEN NF + 2 ELSE NF      \* sections chosen before the last one
+\* "twin": two fields with ONE response key under the SAME parent, whose sub-selections are merged
+\* (steps I, J between the two sub-selection sets and the fragments spread in either), fragments
+\* free to spread one another
+\*   { o { <f[NF+1]> }  o { <o> } }
+NS == IF Shape = "nested" THEN NF + 2 ELSE IF Shape = "twin" THEN NF + 1 ELSE NF      \* sections chosen before the last one
 OpSel(f, o) ==
-  IF Shape = "nested"
+  IF Shape = "twin"
+  THEN << Fld(92, "", "o", <<>>, Section(f[NF + 1], 40)), Fld(94, "", "o", <<>>, Section(o, 50)) >>
+  ELSE IF Shape = "nested"
   THEN << Inl(91, "Q", << Fld(92, "", "o", <<>>, Section(f[NF + 1], 40)) >>),
           Inl(93, "M", << Fld(94, "", "o", <<>>, Section(f[NF + 2], 50)) >>),
           Fld(95, "k", "o", <<>>, Section(o, 60)) >>
   ELSE Section(o, 10 * NF)
-RootSp(f, o) == IF Shape = "nested" THEN f[NF + 1].sp \cup f[NF + 2].sp \cup o.sp ELSE o.sp
+RootSp(f, o) == IF Shape = "nested" THEN f[NF + 1].sp \cup f[NF + 2].sp \cup o.sp
+                ELSE IF Shape = "twin" THEN f[NF + 1].sp \cup o.sp ELSE o.sp
 
 DocOf(f, o) ==
   [ops |-> << [kind |-> "query", name |-> "", vdefs |-> <<>>, sel |-> OpSel(f, o)] >>,
